@@ -228,6 +228,10 @@ def call_builtin(eng, name, bound_self, args, kwargs, st, fr, k, node=None):
     if name == "re.finditer":
         # the splitter's mark iterator: a ghost cursor over the mark arrays (contract A-RE)
         st.heap.set(("g", "cur", "int"), z3.IntVal(0))
+        # A-RE speaks about the marks of the text given here: BIB_LEN is its length
+        from . import marks
+        if len(args) >= 2 and isinstance(args[1], SStr):
+            st.assume(z3.Length(args[1].t) == marks.L)
         return k(st, SRef(z3.IntVal(7), "iter:marks"))
     raise _err(f"builtin {name} not modelled")
 
